@@ -6,6 +6,8 @@
 //!   <input> <sym> <modes> <brief> <pretty> <feat> <rfa> <out> <cy> <log> <verbose> <stdout> <evil> <noflags> [<lim> [<ldi>]]
 //!   input   F:<name in testdata> | M:<name>:<seed>:<n bytes mutated> | MS:<k>:<seed>:<n> (mutated synth) | T:<name>:<len> (truncated)
 //!           | S:<k> (minidump-synth variant) | X:missing | X:empty | X:dir | X:text
+//!           | DS:<seed> (a synthesized dump with a drawn subset of the stream kinds --dump prints: each one absent, present, or
+//!             present but unreadable)
 //!   sym     n none | p positional testdata/symbols | s --symbols-path testdata/symbols
 //!           | a positional "symargs" (test_app.sym with argument lists) | b --symbols-path symargs + positional symbols
 //!           | U<2|4|g>[c|t] --symbols-url on the harness's loopback server answering 200 / 404 / 200 with garbage,
@@ -47,6 +49,9 @@
 //!   below the tool's cache / tmp directory and the library's after the run) logc=<class> errc=<class> (what the log file / standard
 //!   error hold against the line main.rs logs for the library's failure: E empty | L exactly `ERROR <name> - Error reading|processing
 //!   dump: <err>` | L+ other lines, then that line | 1 one other `ERROR ..` line | C one `Error: ..` line | U clap's `error: ..` | ?) exp=<list>
+//!   dst=<-|name=c,..> (--dump cases: what get_stream::<T>() / get_raw_stream answer per stream kind: 0 Ok | 1 StreamNotFound | 2 another
+//!   error) dseq=<-|parts> (the tool's primary output cut into the texts of the library's individual printers, called one by one
+//!   in-process: H header | S:<T> T::print | L the fixed text | R:<name> a raw stream | ?<n> n bytes that are no printer's text)
 //!   sink = '-' (file absent) | n/a | <len>:<hash>:<names of the in-process renderings it equals, '+'-joined | none>
 //!          a name followed by '<' means: a proper non-empty prefix of that rendering; followed by '>': that whole rendering
 //!          and then further bytes; preceded by '>': further bytes and then that whole rendering
@@ -184,6 +189,257 @@ where
     Ok(())
 }
 
+/// The texts of the individual printers print_minidump_dump calls, each called on its own (name, status of the lookup, text):
+/// what the tool's --dump output is cut into, so that WHICH printers ran in WHICH order can be compared with the model.
+fn dump_parts<'a, T>(dump: &Minidump<'a, T>, brief: bool) -> Vec<(String, char, Vec<u8>)>
+where
+    T: Deref<Target = [u8]> + 'a,
+{
+    use minidump_common::format::MINIDUMP_STREAM_TYPE as ST;
+    let mut parts: Vec<(String, char, Vec<u8>)> = vec![];
+    let mut hdr = Vec::new();
+    dump.print(&mut hdr).expect("header printer on a Vec");
+    parts.push(("H".into(), 'P', hdr));
+    parts.push(("L".into(), 'P', b"MinidumpCrashpadInfo cannot print invalid data".to_vec()));
+    let system_info = dump.get_stream::<MinidumpSystemInfo>().ok();
+    let misc_info = dump.get_stream::<MinidumpMiscInfo>().ok();
+    let unified = dump
+        .get_stream::<MinidumpMemory64List<'_>>()
+        .ok()
+        .map(UnifiedMemoryList::Memory64)
+        .or_else(|| dump.get_stream::<MinidumpMemoryList<'_>>().ok().map(UnifiedMemoryList::Memory));
+    macro_rules! typed {
+        ($name:expr, $ty:ty, |$x:ident, $out:ident| $print:expr) => {{
+            let (st, bytes) = match dump.get_stream::<$ty>() {
+                Ok($x) => {
+                    let mut buf: Vec<u8> = Vec::new();
+                    {
+                        let $out = &mut buf;
+                        $print.expect("printer on a Vec");
+                    }
+                    ('P', buf)
+                }
+                Err(Error::StreamNotFound) => ('M', vec![]),
+                Err(_) => ('B', vec![]),
+            };
+            parts.push((format!("S:{}", $name), st, bytes));
+        }};
+    }
+    typed!("MinidumpSystemInfo", MinidumpSystemInfo, |x, o| x.print(o));
+    typed!("MinidumpMemoryList", MinidumpMemoryList<'_>, |x, o| x.print(o, brief));
+    typed!("MinidumpMemory64List", MinidumpMemory64List<'_>, |x, o| x.print(o, brief));
+    typed!("MinidumpMiscInfo", MinidumpMiscInfo, |x, o| x.print(o));
+    typed!("MinidumpThreadList", MinidumpThreadList<'_>, |x, o| x.print(o, unified.as_ref(), system_info.as_ref(), misc_info.as_ref(), brief));
+    typed!("MinidumpModuleList", MinidumpModuleList, |x, o| x.print(o));
+    typed!("MinidumpUnloadedModuleList", MinidumpUnloadedModuleList, |x, o| x.print(o));
+    typed!("MinidumpHandleDataStream", MinidumpHandleDataStream, |x, o| x.print(o));
+    typed!("MinidumpMemoryInfoList", MinidumpMemoryInfoList<'_>, |x, o| x.print(o));
+    typed!("MinidumpException", MinidumpException, |x, o| x.print(o, system_info.as_ref(), misc_info.as_ref()));
+    typed!("MinidumpAssertion", MinidumpAssertion, |x, o| x.print(o));
+    typed!("MinidumpThreadNames", MinidumpThreadNames, |x, o| x.print(o));
+    typed!("MinidumpBreakpadInfo", MinidumpBreakpadInfo, |x, o| x.print(o));
+    typed!("MinidumpCrashpadInfo", MinidumpCrashpadInfo, |x, o| x.print(o));
+    typed!("MinidumpMacCrashInfo", MinidumpMacCrashInfo, |x, o| x.print(o));
+    typed!("MinidumpMacBootargs", MinidumpMacBootargs, |x, o| x.print(o));
+    for (stream, name) in [
+        (ST::LinuxCmdLine, "LinuxCmdLine"),
+        (ST::LinuxEnviron, "LinuxEnviron"),
+        (ST::LinuxLsbRelease, "LinuxLsbRelease"),
+        (ST::LinuxProcStatus, "LinuxProcStatus"),
+        (ST::LinuxCpuInfo, "LinuxCpuInfo"),
+        (ST::LinuxMaps, "LinuxMaps"),
+        (ST::MozLinuxLimits, "MozLinuxLimits"),
+        (ST::MozSoftErrors, "MozSoftErrors"),
+    ] {
+        match dump.get_raw_stream(stream as u32) {
+            Ok(contents) => {
+                // (the text print_raw_stream writes)
+                let body = contents.split(|&v| v == 0).map(String::from_utf8_lossy).collect::<Vec<_>>().join("\\0\n");
+                parts.push((format!("R:{}", name), 'P', format!("Stream {}:\n{}\n\n", name, body).into_bytes()));
+            }
+            Err(_) => parts.push((format!("R:{}", name), 'M', vec![])),
+        }
+    }
+    parts
+}
+
+/// (dst, dseq): the lookups' statuses and the primary output cut into the printers' texts (longest match first)
+fn dump_cut(path: &Path, brief: bool, primary: &[u8]) -> (String, String) {
+    let res = std::panic::catch_unwind(std::panic::AssertUnwindSafe(|| {
+        let dump = match Minidump::read_path(path) {
+            Ok(d) => d,
+            Err(_) => return ("-".to_string(), "-".to_string()),
+        };
+        let parts = dump_parts(&dump, brief);
+        let dst: Vec<String> = parts
+            .iter()
+            .filter(|(n, _, _)| n.contains(':'))
+            .map(|(n, st, _)| format!("{}={}", &n[2..], match st { 'P' => 0, 'M' => 1, _ => 2 }))
+            .collect();
+        let mut pos = 0;
+        let mut seq: Vec<String> = vec![];
+        while pos < primary.len() {
+            let mut best: Option<(usize, &str)> = None;
+            for (n, _, b) in parts.iter() {
+                if !b.is_empty() && primary[pos..].starts_with(b) && best.map_or(true, |(l, _)| b.len() > l) {
+                    best = Some((b.len(), n.as_str()));
+                }
+            }
+            match best {
+                Some((l, n)) => {
+                    seq.push(n.to_string());
+                    pos += l;
+                }
+                None => {
+                    seq.push(format!("?{}", primary.len() - pos));
+                    break;
+                }
+            }
+        }
+        (dst.join(","), if seq.is_empty() { "0".to_string() } else { seq.join(",") })
+    }));
+    res.unwrap_or(("X".to_string(), "X".to_string()))
+}
+
+/// DS:<seed>: each stream kind of --dump absent / present / present but unreadable (3 bytes), drawn from the seed
+fn synth_streams(seed: u64) -> Vec<u8> {
+    use minidump_common::format::MINIDUMP_STREAM_TYPE as ST;
+    let e = Endian::Little;
+    let mut r = Rng(seed.wrapping_mul(0x9E3779B97F4A7C15) | 1);
+    let mut d = synth::SynthMinidump::with_endian(e);
+    let junk = |t: ST| synth::SimpleStream { stream_type: t as u32, section: Section::with_endian(e).append_repeated(0x5a, 3) };
+    let context = synth::x86_context(e, 0xf00800, 0x1010);
+    let stack = synth::Memory::with_section(Section::with_endian(e).append_repeated(0x41, 0x100), 0x1000);
+    // 0 absent | 1 present | 2 unreadable
+    let mut draw = |present_w: u64| -> u64 {
+        let x = r.next() % 10;
+        if x < present_w { 1 } else if x < present_w + 2 { 2 } else { 0 }
+    };
+    match draw(6) {
+        1 => d = d.add_system_info(synth::SystemInfo::new(e)),
+        2 => d = d.add_stream(junk(ST::SystemInfoStream)),
+        _ => {}
+    }
+    match draw(5) {
+        1 => d = d.add_thread(synth::Thread::new(e, 0x1234, &stack, &context)),
+        2 => d = d.add_stream(junk(ST::ThreadListStream)),
+        _ => {}
+    }
+    let name = synth::DumpString::new("c:\\app\\many.dll", e);
+    let uname = synth::DumpString::new("gone.dll", e);
+    let tname = synth::DumpString::new("worker", e);
+    match draw(4) {
+        1 => d = d.add_module(synth::Module::new(e, 0xf00000, 0x10000, &name, 0xb1054d2a, 0x34571371, None)),
+        2 => d = d.add_stream(junk(ST::ModuleListStream)),
+        _ => {}
+    }
+    match draw(3) {
+        1 => d = d.add_unloaded_module(synth::UnloadedModule::new(e, 0xa00000, 0x1000, &uname, 0xb1054d2a, 0x34571371)),
+        2 => d = d.add_stream(junk(ST::UnloadedModuleListStream)),
+        _ => {}
+    }
+    let mem_choice = draw(5);
+    let mem64_choice = draw(4);
+    match draw(3) {
+        1 => d = d.add_memory_info(synth::MemoryInfo::new(e, 0x1000, 0x1000, 4, 0x1000, 0x1000, 4, 0x20000)),
+        2 => d = d.add_stream(junk(ST::MemoryInfoListStream)),
+        _ => {}
+    }
+    match draw(3) {
+        1 => {
+            let mut ex = synth::Exception::new(e);
+            ex.thread_id = 0x1234;
+            ex.exception_record.exception_code = 0xC0000005;
+            ex.exception_record.exception_address = 0xf00800;
+            d = d.add_exception(ex);
+        }
+        2 => d = d.add_stream(junk(ST::ExceptionStream)),
+        _ => {}
+    }
+    match draw(3) {
+        1 => d = d.add_thread_name(synth::ThreadName::new(e, 0x1234, Some(&tname))),
+        2 => d = d.add_stream(junk(ST::ThreadNamesStream)),
+        _ => {}
+    }
+    match draw(3) {
+        1 => d = d.add_crashpad_info(synth::CrashpadInfo::new(e).add_simple_annotation("k", "v")),
+        2 => d = d.add_stream(junk(ST::CrashpadInfoStream)),
+        _ => {}
+    }
+    match draw(3) {
+        1 => d = d.add_stream(synth::MiscStream::new(e)),
+        2 => d = d.add_stream(junk(ST::MiscInfoStream)),
+        _ => {}
+    }
+    match draw(3) {
+        1 => d = d.add_stream(synth::SimpleStream {
+            stream_type: ST::BreakpadInfoStream as u32,
+            section: Section::with_endian(e).D32(3).D32(0x1234).D32(0x1234),
+        }),
+        2 => d = d.add_stream(junk(ST::BreakpadInfoStream)),
+        _ => {}
+    }
+    match draw(2) {
+        1 => d = d.add_stream(synth::SimpleStream {
+            stream_type: ST::AssertionInfoStream as u32,
+            section: Section::with_endian(e).append_repeated(0, 776),
+        }),
+        2 => d = d.add_stream(junk(ST::AssertionInfoStream)),
+        _ => {}
+    }
+    match draw(2) {
+        1 => d = d.add_handle_descriptor(synth::HandleDescriptor::new(e, 0x77, None, None, 1, 2, 3, 4)),
+        2 => d = d.add_stream(junk(ST::HandleDataStream)),
+        _ => {}
+    }
+    if draw(0) == 2 {
+        d = d.add_stream(junk(ST::MozMacosCrashInfoStream));
+    }
+    if draw(0) == 2 {
+        d = d.add_stream(junk(ST::MozMacosBootargsStream));
+    }
+    if draw(3) == 1 {
+        d = d.add_stream(synth::SimpleStream {
+            stream_type: ST::LinuxCmdLine as u32,
+            section: Section::with_endian(e).append_bytes(b"/bin/app\0--flag\0"),
+        });
+    }
+    if draw(3) == 1 {
+        d = d.set_linux_environ(b"A=1\0B=2\0");
+    }
+    if draw(2) == 1 {
+        d = d.set_linux_lsb_release(b"DISTRIB_ID=\"hello\"\n");
+    }
+    if draw(2) == 1 {
+        d = d.set_linux_proc_status(b"Name:\tapp\nPid:\t77\n");
+    }
+    if draw(2) == 1 {
+        d = d.set_linux_cpu_info(b"processor : 0\n\n");
+    }
+    if draw(2) == 1 {
+        d = d.set_linux_maps(b"00400000-00401000 r-xp 00000000 00:00 1 /bin/app\n");
+    }
+    if draw(2) == 1 {
+        d = d.set_linux_proc_limits(b"Limit  Soft Limit  Hard Limit  Units\nMax cpu time  unlimited  unlimited  seconds\n");
+    }
+    if draw(2) == 1 {
+        d = d.set_soft_errors("[{\"a\":1}]");
+    }
+    // the two memory lists last (the stack must be cited by a list to be part of the file)
+    let far = synth::Memory::with_section(Section::with_endian(e).append_repeated(0x64, 0x180), 0x7000_0000_1000);
+    match mem_choice {
+        1 => d = d.add_memory(stack),
+        2 => d = d.add(stack).add_stream(junk(ST::MemoryListStream)),
+        _ => d = d.add(stack),
+    }
+    match mem64_choice {
+        1 => d = d.add_memory64(far),
+        2 => d = d.add_stream(junk(ST::Memory64ListStream)),
+        _ => {}
+    }
+    d.add(context).add(name).add(uname).add(tname).finish().expect("synth")
+}
+
 // ---------------------------------------------------------------------------------- inputs
 fn synth_dump(k: u64) -> Vec<u8> {
     let e = Endian::Little;
@@ -301,6 +557,7 @@ fn input_bytes(spec: &str) -> Option<Vec<u8>> {
             Some(b[..l.min(b.len())].to_vec())
         }
         "S" => Some(synth_dump(parts[1].parse().unwrap())),
+        "DS" => Some(synth_streams(parts[1].parse().unwrap())),
         "X" => match parts[1] {
             "empty" => Some(vec![]),
             "text" => Some(b"this is not a minidump\n".to_vec()),
@@ -1303,9 +1560,25 @@ fn run(st: &mut State, line: &str) -> String {
     };
     let errc = if died { "-" } else { diag_class(&tool.stderr, &lib) };
     let exp: Vec<String> = lib.renderings.iter().map(|(n, b)| format!("{}:{}:{}", n, b.len(), fnv(b))).collect();
+    // --dump: the primary output cut into the texts of the individual printers
+    let (dst, dseq) = if modes.contains('D') && raw_argv.is_none() && !died && (lib.class == "O" || lib.class == "P") {
+        let primary: Option<Vec<u8>> = if out_cls == "-" {
+            if stdout_cls == "o" { tool.stdout.clone() } else { None }
+        } else if out_cls == "g" || has_pre_cls(out_cls) {
+            std::fs::read(&out_path).ok()
+        } else {
+            None
+        };
+        match primary {
+            Some(b) => dump_cut(&in_path, brief, &b),
+            None => ("-".to_string(), "-".to_string()),
+        }
+    } else {
+        ("-".to_string(), "-".to_string())
+    };
     let _ = std::fs::remove_dir_all(&casedir);
     format!(
-        "lib={} cpu={} exit={} stdout={} out={} cy={} log={} stderr={} pre={} kept={} logref={} stale={} symc={} logc={} errc={} exp={}",
+        "lib={} cpu={} exit={} stdout={} out={} cy={} log={} stderr={} pre={} kept={} logref={} stale={} symc={} logc={} errc={} dst={} dseq={} exp={}",
         lib.class,
         if lib.cpu.is_empty() { "-" } else { lib.cpu.as_str() },
         tool.exit,
@@ -1321,6 +1594,8 @@ fn run(st: &mut State, line: &str) -> String {
         symc,
         logc,
         errc,
+        dst,
+        dseq,
         if exp.is_empty() { "-".to_string() } else { exp.join(",") }
     )
 }
